@@ -272,12 +272,24 @@ type sut struct {
 	ca  *fakeCA
 	q   *fakeQueue
 	emu sync.Mutex
-	ev  []byte // 'R' / 'W' callbacks in order
+	ev  []byte     // 'R' / 'W' / 'w' callbacks in order
+	cit *citServer // stream citadel: the in-process CA service behind the real CitadelClient
 }
 
 func newSUT(ratio, jitter float64, realQueue bool) *sut {
 	initRoots()
-	s := &sut{ca: &fakeCA{}, q: &fakeQueue{}}
+	ca := &fakeCA{}
+	s := newSUTWith(ratio, jitter, ca, ca)
+	if realQueue {
+		panic("real queue is installed by the timer stream itself")
+	}
+	return s
+}
+
+// newSUTWith builds the real SecretManagerClient on the given CA client; `ca` is the signing fake CA
+// behind it (directly, or behind the in-process gRPC service of the citadel stream).
+func newSUTWith(ratio, jitter float64, ca *fakeCA, client security.Client) *sut {
+	s := &sut{ca: ca, q: &fakeQueue{}}
 	opts := &security.Options{
 		ECCSigAlg:                            string(pkiutil.EcdsaSigAlg),
 		TrustDomain:                          "cluster.local",
@@ -287,11 +299,9 @@ func newSUT(ratio, jitter float64, realQueue bool) *sut {
 		SecretRotationGracePeriodRatio:       ratio,
 		SecretRotationGracePeriodRatioJitter: jitter,
 	}
-	sc, err := nacache.NewSecretManagerClient(s.ca, opts)
+	sc, err := nacache.NewSecretManagerClient(client, opts)
 	must(err)
-	if !realQueue {
-		nacache.VerifSetQueue(sc, s.q)
-	}
+	nacache.VerifSetQueue(sc, s.q)
 	sc.RegisterSecretHandler(func(name string) {
 		s.emu.Lock()
 		defer s.emu.Unlock()
@@ -299,7 +309,14 @@ func newSUT(ratio, jitter float64, realQueue bool) *sut {
 		case security.RootCertReqResourceName:
 			s.ev = append(s.ev, 'R')
 		case security.WorkloadKeyCertResourceName:
-			s.ev = append(s.ev, 'W')
+			// the order "empty the cache, then notify" is part of the property: a subscriber that
+			// re-requests from this callback must not find the old certificate. 'W' = cache empty
+			// at callback time, 'w' = a certificate is still cached.
+			if nacache.VerifCachedWorkload(sc) == nil {
+				s.ev = append(s.ev, 'W')
+			} else {
+				s.ev = append(s.ev, 'w')
+			}
 		default:
 			s.ev = append(s.ev, '?')
 		}
@@ -308,7 +325,12 @@ func newSUT(ratio, jitter float64, realQueue bool) *sut {
 	return s
 }
 
-func (s *sut) close() { s.sc.Close() }
+func (s *sut) close() {
+	s.sc.Close()
+	if s.cit != nil {
+		s.cit.srv.Stop()
+	}
+}
 
 func (s *sut) takeEvents() string {
 	s.emu.Lock()
